@@ -188,6 +188,20 @@ def bounded(tier, seed, procs):
                             b2.fail(Failure("immutable-histories", f"mode=rebind cls={k.__name__} field={n}", dict(kind="immut", mode="rebind", cls=k.__name__, field=n),
                                             expected="setattr and delattr raise", actual=f"{outcome.describe(r1)} / {outcome.describe(r2)}",
                                             functions=["expr_dataclass.map_cls"]))
+                # fields a legacy class adds itself (init-args protocol): the statement promises the same for them
+                dc_names_all = [f.name for f in dataclasses.fields(k)] if dataclasses.is_dataclass(k) else []
+                for n in [n for n in names if n not in dc_names_all]:
+                    victim = _rebuild(a)
+                    before = outcome.run(lambda: hash(victim))
+                    r1 = outcome.run(lambda: setattr(victim, n, 0))
+                    b2.case(("setattr-legacy", k.__name__, n), sample=dict(cls=k.__name__, field=n))
+                    if __debug__ and r1[0] != "exc":
+                        twin = _rebuild(a)
+                        stale = outcome.run(lambda: (victim == twin, hash(victim) == hash(twin)))
+                        b2.fail(Failure("immutable-histories", f"cause=legacy-field-not-frozen mode=rebind cls={k.__name__} field={n}",
+                                        dict(kind="immut", mode="rebind-legacy", cls=k.__name__, field=n), expected="setattr raises",
+                                        actual=f"{outcome.describe(r1)}; afterwards (== twin, same hash as twin) = {outcome.describe(stale)}",
+                                        functions=["Expression (init-args protocol)"]))
                 src = repr(a)
                 for hist in itertools.product(ops, repeat=L):
                     obj = _rebuild(a)
